@@ -130,7 +130,9 @@ static V build(M& m, usize kmin, usize kmax, int id, bool draw_fixed = true)
         }
     }
     // history: the same logical content may have been reached by adding one more element and removing it again
-#ifdef KF_CMP_HISTORY
+#if PART != 2
+    if (false)  // the history variant belongs to the vector-equality part; the relational parts rebuild the content in other memory
+#elif defined(KF_CMP_HISTORY)
     // discriminator of KF-cmp-history: lists whose vectors compare by whole-buffer memcmp (all value types integral) do not get
     // the "element added and removed again" history
     if (spare == 1 && !all_integral(LT{}))
